@@ -891,6 +891,11 @@ func (x *seqExec) plantGoCompressed(seed uint32) {
 	last := filepath.Join(dir, names[len(names)-1])
 	ts := uint32(x.sim.Epoch + x.sim.elapsed/1e9)
 	rec := refEncode(ts, flag|flagServerCompress, ver, km.Key, comp)
+	if st, err := os.Stat(last); err != nil || st.Size()+int64(len(rec)) > cfg.DataFileMax {
+		// the store itself never lets a data file grow beyond the limit (it rotates first); a
+		// planted record must not create a layout the code under test cannot produce
+		return
+	}
 	f, err := os.OpenFile(last, os.O_WRONLY|os.O_APPEND, 0644)
 	if err != nil {
 		return
